@@ -18,10 +18,10 @@
   `ShowEmbeddings { limit }`                                        keys.take(expr_to_usize(e)? or 100)
 
   The input of the model is the OUTPUT of the direct engine call (the rows in the order the engine returned
-  them, each with the cells the projection kept); the output is the list the statement returns.  Values are
-  `Option Int` (`none` = SQL NULL or "the row has no such column": `get_sort_value` answers `None` for the one
-  and `Some(Value::Null)` for the other and `compare_values_with_nulls` treats the two alike); the harness sends
-  strings as order-isomorphic integers.
+  them, each with the cells the projection kept); the output is the list the statement returns.  A sort key is
+  `absent` (the row has no such column: `get_sort_value` = `None` â€” a sort column outside the select list, the
+  other side's columns in an outer-join row without partner), `null` (`Some(Value::Null)`) or an integer (the
+  harness sends strings as order-isomorphic integers).
 -/
 namespace Neumann.Parse.Exec
 
@@ -33,20 +33,28 @@ inductive Clause where
   | other
 deriving DecidableEq, Repr
 
-abbrev Key := Option Int
+/-- what `get_sort_value` answers for one ORDER BY item and one row -/
+inductive Cell where
+  /-- `None`: the row has no cell of that column -/
+  | absent
+  /-- `Some(Value::Null)` -/
+  | null
+  | val (v : Int)
+deriving DecidableEq, Repr
 
 structure Row where
   /-- position of the row in the direct engine call's answer -/
   id : Nat
-  /-- `Row::values`: (column, value) pairs, only the columns the projection kept -/
-  cells : List (Nat Ã— Key)
+  /-- `Row::values`: (column, value) pairs, only the columns the row has; `none` = SQL NULL -/
+  cells : List (Nat Ã— Option Int)
 deriving DecidableEq, Repr
 
-/-- `get_sort_value` on a column reference: first cell of that column; NULL and "no such cell" coincide -/
-def Row.get (r : Row) (c : Nat) : Key :=
+/-- `get_sort_value` on a column reference: first cell of that column -/
+def Row.get (r : Row) (c : Nat) : Cell :=
   match r.cells.find? (fun p => p.1 == c) with
-  | some p => p.2
-  | none => none
+  | some (_, none) => .null
+  | some (_, some v) => .val v
+  | none => .absent
 
 structure OrderItem where
   col : Nat
@@ -59,13 +67,29 @@ deriving DecidableEq, Repr
 def cmpInt (a b : Int) : Ordering :=
   if a < b then .lt else if a = b then .eq else .gt
 
-/-- `compare_values_with_nulls(a, b, nulls_order)`; `nf` = `nulls_order.unwrap_or(Last) == First` -/
-def cmpNulls (a b : Key) (nf : Bool) : Ordering :=
+/-- `compare_values_with_nulls(a, b, nulls_order)`, arm by arm; `nf` = `nulls_order.unwrap_or(Last) == First`:
+      (None, None) | (Some(Null), Some(Null)) => Equal
+      (None | Some(Null), _)                  => First: Less,    Last: Greater     -- ALSO (None, Some(Null)) and (Some(Null), None)
+      (_, None | Some(Null))                  => First: Greater, Last: Less
+      (Some(va), Some(vb))                    => compare_values(va, vb) -/
+def cmpNulls (a b : Cell) (nf : Bool) : Ordering :=
   match a, b with
-  | none, none => .eq
-  | none, some _ => if nf then .lt else .gt
-  | some _, none => if nf then .gt else .lt
-  | some x, some y => cmpInt x y
+  | .absent, .absent => .eq
+  | .null, .null => .eq
+  | .val x, .val y => cmpInt x y
+  | .val _, _ => if nf then .gt else .lt
+  | _, _ => if nf then .lt else .gt
+
+/-- a sort column for which some row has no cell and another row has NULL: `compare_values_with_nulls` answers
+`Greater` (or `Less`) BOTH ways round for such a pair, the closure of `sort_rows` is then not an order and what
+`sort_by` does with it is unspecified (it may panic).  Rows of one table, of an inner / cross / natural join, and of
+an outer join whose sort column has no NULL never have such a column. -/
+def mixedCol (rows : List Row) (c : Nat) : Bool :=
+  rows.any (fun r => r.get c == .absent) && rows.any (fun r => r.get c == .null)
+
+/-- the rows the comparator of `sort_rows` orders consistently -/
+def consistent (order : List OrderItem) (rows : List Row) : Bool :=
+  order.all (fun it => !mixedCol rows it.col)
 
 /-- one pass of the loop of `sort_rows`: the comparison INCLUDING the placement of NULLs is reversed for DESC -/
 def cmpItem (it : OrderItem) (a b : Row) : Ordering :=
@@ -174,9 +198,9 @@ clause places the NULLs (default: NULLS LAST under ASC, NULLS FIRST under DESC â
 def cmpItemSpec (it : OrderItem) (a b : Row) : Ordering :=
   let nf := it.nulls.getD it.desc
   match a.get it.col, b.get it.col with
-  | none, none => .eq
-  | none, some _ => if nf then .lt else .gt
-  | some _, none => if nf then .gt else .lt
-  | some x, some y => if it.desc then (cmpInt x y).swap else cmpInt x y
+  | .val x, .val y => if it.desc then (cmpInt x y).swap else cmpInt x y
+  | .val _, _ => if nf then .gt else .lt
+  | _, .val _ => if nf then .lt else .gt
+  | _, _ => .eq
 
 end Neumann.Parse.Exec
